@@ -13,6 +13,8 @@ pub mod blk;
 pub mod bufs;
 pub mod composite;
 pub mod config;
+pub mod cq;
+pub mod encode;
 pub mod inotify;
 pub mod life;
 pub mod readbuf;
@@ -246,6 +248,8 @@ pub fn run(a: &Args) -> i32 {
         "smoke" => smoke::run(a),
         "addr" => run_comp(a, &mut addr::AddrComp),
         "life" => run_comp(a, &mut life::LifeComp),
+        "cq" => run_comp(a, &mut cq::CqComp),
+        "encode" => run_comp(a, &mut encode::EncodeComp),
         "sq" => run_comp(a, &mut sq::SqComp),
         "blk" => run_comp(a, &mut blk::BlkComp),
         "wake" => run_comp(a, &mut wake::WakeComp),
